@@ -266,7 +266,7 @@ static void runC18(Case& c) {
 // C19
 static void genC19(Rng& r, KV& kv, const Opts&) {
   kv.set("n", r.range(1, 2));
-  kv.set("form", r.range(0, 5)); // 0 then-chain, 1 when_all(iter), 2 when_all(tuple), 3 when_any(iter), 4 when_all(taskset, iter), 5 when_any(cts, tuple)
+  kv.set("form", r.pick<long>({0, 0, 0, 1, 2, 3, 4, 5})); // 0 then-chain, 1 when_all(iter), 2 when_all(tuple), 3 when_any(iter), 4 when_all(taskset, iter), 5 when_any(cts, tuple)
   kv.set("inputs", r.range(0, 4));
   kv.set("chain", r.range(1, 4));
   kv.set("sched", r.pick<long>({0, 0, 1, 2, 3}));
@@ -274,6 +274,7 @@ static void genC19(Rng& r, KV& kv, const Opts&) {
   kv.set("delay", r.range(0, 60)); // points the registering thread burns before then()/when_*()
   kv.set("burn", r.range(0, 20));  // points an input functor burns
   kv.set("gated", r.chance(1, 4) ? 1L : 0L);
+  kv.set("waitFirst", r.range(0, 1)); // then-chain on a task set: the set's wait() comes before the final get()
   kv.setu("mp", 800000);
   kv.setu("fp", 400000);
 }
@@ -340,6 +341,19 @@ static void runC19(Case& c) {
           inThen.fetch_sub(1);
           cur = next;
           burn(delay / 3);
+        }
+        if (c.p.i("waitFirst") && (sched == 1 || sched == 2)) {
+          // continuations registered on a task set are the set's work from the moment then() returns, even while
+          // their antecedent (which runs on the pool, outside the set) is not ready yet: wait() covers them
+          if (sched == 1)
+            ts.wait();
+          else
+            cts.wait();
+          for (long i = 0; i < chain; ++i)
+            VF_CHECK(c, linkDone[(size_t)i].load() == 1, "taskset-wait-continuation-pending",
+                     "the task set's wait() returned although continuation %ld, registered on the set with then(), had not finished", i);
+          VF_CHECK(c, cur.is_ready(), "taskset-wait-result-not-ready", "taskSet.wait() returned but the last continuation's future is not ready");
+          c.cls("set_wait_before_get_on_then_chain");
         }
         int v = cur.get();
         VF_CHECK(c, v == 1 + chain, "chain-value", "chain of %ld continuations produced %d", chain, v);
